@@ -476,3 +476,22 @@ package factstore
 //@ func NewTemporalStore(opts)
 //@   trusted
 //@   modifies nothing
+
+// ---- C06: IndexedInMemoryStore answers a pattern query only with matching atoms ---------------------------------
+//@ spec func iarity(s IndexedInMemoryStore) bool =
+//@      (forall p ast.PredicateSym, h uint64, k uint64 :: p in s.shardsByPredicate && h in s.shardsByPredicate[p] && k in s.shardsByPredicate[p][h] ==> len(s.shardsByPredicate[p][h][k].Args) == p.Arity)
+//@      && (forall p ast.PredicateSym :: p in s.constants ==> len(s.constants[p].Args) == p.Arity)
+
+//@ func (s IndexedInMemoryStore) getFactsOfFirstVariable(a, fn)
+//@   requires iarity(s) && len(a.Args) == a.Predicate.Arity && a.Predicate.Arity >= 1 && a.Args[0] is ast.Variable
+//@   modifies nothing
+//@   ensures sound(a, emitted, old(emitted))
+//@   loop 1 invariant sound(a, emitted, old(emitted))
+//@   loop 2 invariant sound(a, emitted, old(emitted))
+//@   loop 2 invariant forall k uint64 :: k in shard ==> len(shard[k].Args) == a.Predicate.Arity
+
+//@ func (s IndexedInMemoryStore) GetFacts(a, fn)
+//@   requires iarity(s) && len(a.Args) == a.Predicate.Arity
+//@   modifies nothing
+//@   ensures sound(a, emitted, old(emitted))
+//@   loop 1 invariant sound(a, emitted, old(emitted))
